@@ -27,6 +27,8 @@ import (
 	"errors"
 	"fmt"
 	"net"
+	"os"
+	"runtime"
 	"sort"
 	"strings"
 	"sync"
@@ -43,6 +45,7 @@ import (
 	"github.com/nspcc-dev/neo-go/pkg/network/payload"
 	"github.com/nspcc-dev/neo-go/pkg/util"
 	"go.uber.org/zap"
+	"go.uber.org/zap/zapcore"
 	"pgregory.net/rapid"
 	ck "verifharness/chainkit"
 	"verifharness/vt"
@@ -53,7 +56,12 @@ func init() {
 	vt.Register("net", 1.0, c20GenCase, c20CheckCase)
 }
 
-func TestProp(t *testing.T)   { vt.RunAll(t, 40) }
+func TestProp(t *testing.T) {
+	vt.RunAll(t, 40)
+	if os.Getenv("C20_NET_TIMING") != "" {
+		fmt.Println("TIMING", c20T)
+	}
+}
 func TestReplay(t *testing.T) { vt.ReplayAll(t) }
 
 // ---- case ---------------------------------------------------------------------------------------------------------
@@ -86,9 +94,18 @@ type c20Case struct {
 	Liar      bool           `json:"liar"`
 }
 
+// c20Pct: 0..99, drawn with SampledFrom (IntRange is biased towards small values).
+var c20Pct = func() []int {
+	p := make([]int, 100)
+	for i := range p {
+		p[i] = i
+	}
+	return p
+}()
+
 func c20GenEvent(t *rapid.T) c20Event {
 	e := c20Event{Seed: rapid.Uint64().Draw(t, "seed"), I: rapid.IntRange(0, 40).Draw(t, "i")}
-	switch k := rapid.IntRange(0, 99).Draw(t, "kind"); {
+	switch k := rapid.SampledFrom(c20Pct).Draw(t, "kind"); {
 	case k < 12:
 		e.K = "tick"
 		e.I = rapid.SampledFrom([]int{0, 0, 0, 1}).Draw(t, "whom")
@@ -159,7 +176,7 @@ func c20GenCase(t *rapid.T) c20Case {
 		}
 	}
 	// Long chains reach the count limits of getblockbyindex (500) and getheaders (2000).
-	switch k := rapid.IntRange(0, 99).Draw(t, "long"); {
+	switch k := rapid.SampledFrom(c20Pct).Draw(t, "long"); {
 	case k < 8:
 		c.Filler = rapid.IntRange(498, 520).Draw(t, "filler")
 		c.Chain.Profile = "V1C1"
@@ -306,7 +323,9 @@ type c20World struct {
 	applied []uint32 // block indices in the order the syncing chain reported them
 	appMu   sync.Mutex
 	subCh   chan *block.Block
+	sessStart, sessPoint uint32 // height at the start of this run of the node; sync point if state sync was active in it
 	subDone chan struct{}
+	subQuit chan struct{}
 
 	atSync *c20Peer // the source as seen by the syncing server
 	atSrc  *c20Peer // the syncing node as seen by the source server
@@ -316,7 +335,9 @@ type c20World struct {
 	reqQ  [][]byte // syncing -> source, not yet delivered
 	respQ [][]byte // source -> syncing, not yet delivered
 
+	fatal    c20Fatal
 	lastDrop string // why the honest peer was dropped last time
+	delivered, deliveredSync map[uint32]bool // indices of the blocks handed to the current syncing server instance (for bQueue / bSyncQueue)
 	forged map[util.Uint256]string // hashes of forged headers / blocks (must never be known to the syncing node)
 	stats  struct {
 		drops, dups, discs, restarts, liarMsgs, liarRejected, handlerErrs, reorder, invs int
@@ -325,6 +346,48 @@ type c20World struct {
 }
 
 func (w *c20World) srih() bool { return w.c.Chain.SRIH }
+
+// c20Fatal receives what the server logs at Fatal level (zap would exit the process silently otherwise); the
+// logging goroutine is ended instead.
+type c20Fatal struct {
+	mu  sync.Mutex
+	msg string
+}
+
+func (f *c20Fatal) OnWrite(ce *zapcore.CheckedEntry, fields []zapcore.Field) {
+	enc := zapcore.NewMapObjectEncoder()
+	for _, fl := range fields {
+		fl.AddTo(enc)
+	}
+	f.mu.Lock()
+	if f.msg == "" {
+		f.msg = fmt.Sprintf("%s %v", ce.Message, enc.Fields)
+	}
+	f.mu.Unlock()
+	runtime.Goexit()
+}
+
+func (f *c20Fatal) get() string {
+	f.mu.Lock()
+	defer f.mu.Unlock()
+	return f.msg
+}
+
+type c20FatalCore struct{ zapcore.LevelEnabler }
+
+func (c c20FatalCore) With([]zapcore.Field) zapcore.Core { return c }
+func (c c20FatalCore) Check(e zapcore.Entry, ce *zapcore.CheckedEntry) *zapcore.CheckedEntry {
+	if c.Enabled(e.Level) {
+		return ce.AddCore(e, c)
+	}
+	return ce
+}
+func (c c20FatalCore) Write(zapcore.Entry, []zapcore.Field) error { return nil }
+func (c c20FatalCore) Sync() error                                { return nil }
+
+func (w *c20World) logger() *zap.Logger {
+	return zap.New(c20FatalCore{zapcore.FatalLevel}, zap.WithFatalHook(&w.fatal))
+}
 
 func (w *c20World) newServer(bc *core.Blockchain) (*Server, error) {
 	return newServerFromConstructors(ServerConfig{
@@ -339,7 +402,7 @@ func (w *c20World) newServer(bc *core.Blockchain) (*Server, error) {
 		PingTimeout:       time.Hour,
 		ProtoTickInterval: time.Hour,
 		DialTimeout:       time.Second,
-	}, bc, bc.GetStateSyncModule(), zap.NewNop(), newFakeTransp, newTestDiscovery)
+	}, bc, bc.GetStateSyncModule(), w.logger(), newFakeTransp, newTestDiscovery)
 }
 
 func (w *c20World) goRun(name string, f func()) {
@@ -361,33 +424,53 @@ func (w *c20World) goRun(name string, f func()) {
 // startSync creates the syncing node's server over its (re)opened chain and does what Server.Start does for the
 // parts that matter here.
 func (w *c20World) startSync() error {
+	defer c20Time("start")()
 	srv, err := w.newServer(w.n.BC)
 	if err != nil {
 		return fmt.Errorf("syncing server: %v", err)
 	}
 	w.srv = srv
+	w.delivered, w.deliveredSync = map[uint32]bool{}, map[uint32]bool{}
 	srv.Start()
+	w.sessStart = w.n.BC.BlockHeight()
 	w.subCh = make(chan *block.Block, 8192)
 	w.subDone = make(chan struct{})
-	ch, done := w.subCh, w.subDone
+	w.subQuit = make(chan struct{})
+	ch, done, quit := w.subCh, w.subDone, w.subQuit
 	w.n.BC.SubscribeForBlocks(ch)
 	go func() {
 		defer close(done)
-		for b := range ch {
-			w.appMu.Lock()
-			w.applied = append(w.applied, b.Index)
-			w.appMu.Unlock()
+		for {
+			select {
+			case b := <-ch:
+				w.appMu.Lock()
+				w.applied = append(w.applied, b.Index)
+				w.appMu.Unlock()
+			case <-quit:
+				return
+			}
 		}
 	}()
 	return nil
 }
 
 func (w *c20World) stopSync() {
+	defer c20Time("stop")()
 	w.srv.Shutdown()
 	w.runWG.Wait()
-	w.n.BC.UnsubscribeFromBlocks(w.subCh)
+	// Shutdown does not wait for a block addition the queue goroutine is in the middle of; Close does. Its event is
+	// handed to the dispatcher before Close returns and reaches the collector right after. (UnsubscribeFromBlocks
+	// would discard events itself, so the subscription simply dies with the chain.)
 	w.n.Stop()
-	close(w.subCh)
+	if h := w.n.BC.BlockHeight(); h > w.sessStart && !(w.sessPoint != 0 && h == w.sessPoint) {
+		c20Wait(func() bool {
+			w.appMu.Lock()
+			defer w.appMu.Unlock()
+			return len(w.applied) > 0 && w.applied[len(w.applied)-1] == h
+		})
+	}
+	w.sessPoint = 0
+	close(w.subQuit)
 	<-w.subDone
 }
 
@@ -419,7 +502,12 @@ func (w *c20World) has(p *c20Peer) bool {
 	return w.srv.peers[p]
 }
 
+var c20T = map[string]time.Duration{}
+
+func c20Time(k string) func() { t := time.Now(); return func() { c20T[k] += time.Since(t) } }
+
 func c20Wait(cond func() bool) bool {
+	defer c20Time("wait")()
 	for i := 0; i < 200000; i++ {
 		if cond() {
 			return true
@@ -436,11 +524,18 @@ func (w *c20World) register(p *c20Peer) error {
 	if !c20Wait(func() bool { return w.has(p) }) {
 		return errors.New("infra: the run loop did not register the peer")
 	}
-	w.srv.handshake <- p
+	select {
+	case w.srv.handshake <- p:
+	case <-time.After(20 * time.Second):
+		return fmt.Errorf("the run loop of the syncing server is gone: %s", w.fatal.get())
+	}
 	// The handshake case of the run loop ends with tryStartServices; the next loop iteration can only be entered
 	// after it: a second, harmless event (an unregister of an unknown peer) is consumed only then.
-	w.srv.unregister <- peerDrop{c20NewPeer("nobody", 1, 0, true, w.srih()), errors.New("sync")}
-	return nil
+	select {
+	case w.srv.unregister <- peerDrop{c20NewPeer("nobody", 1, 0, true, w.srih()), errors.New("sync")}:
+	case <-time.After(20 * time.Second):
+	}
+	return w.checkPanics()
 }
 
 func (w *c20World) unregister(s *Server, p *c20Peer) {
@@ -511,6 +606,14 @@ func (w *c20World) toSync(from *c20Peer, b []byte) (error, error) {
 	if err != nil {
 		return nil, fmt.Errorf("message for the syncing node does not decode: %v", err)
 	}
+	if blk, ok := m.Payload.(*block.Block); ok && m.Command == CMDBlock {
+		switch w.stage() { // in the other stages the server has no use for blocks
+		case "inactive":
+			w.delivered[blk.Index] = true
+		case "blocks":
+			w.deliveredSync[blk.Index] = true
+		}
+	}
 	herr := w.srv.handleMessage(from, m)
 	w.collect()
 	return herr, nil
@@ -531,9 +634,12 @@ func (w *c20World) toSource(b []byte) error {
 
 // qlen is the number of elements sitting in the syncing server's block queues.
 func (w *c20World) qlen() int {
-	_, c1 := w.srv.bQueue.LastQueued()
-	_, c2 := w.srv.bSyncQueue.LastQueued()
-	return w.srv.bQueue.Cap() - c1 + w.srv.bSyncQueue.Cap() - c2
+	if w.stage() == "blocks" {
+		_, c2 := w.srv.bSyncQueue.LastQueued()
+		return w.srv.bSyncQueue.Cap() - c2
+	}
+	_, c1 := w.srv.bQueue.LastQueued() // bSyncQueue may keep blocks above the sync point for good
+	return w.srv.bQueue.Cap() - c1
 }
 
 type c20Progress struct {
@@ -561,6 +667,9 @@ func (w *c20World) stage() string {
 
 func (w *c20World) progress() c20Progress {
 	p := c20Progress{hh: w.n.BC.HeaderHeight(), bh: w.n.BC.BlockHeight(), stage: w.stage()}
+	if p.stage == "headers" || p.stage == "state" || p.stage == "blocks" {
+		w.sessPoint = w.srv.stateSync.GetStateSyncPoint()
+	}
 	w.stats.stages[p.stage] = true
 	switch p.stage {
 	case "state":
@@ -577,21 +686,43 @@ func (w *c20World) progress() c20Progress {
 	return p
 }
 
-// settle waits for the queue goroutines: until the queues are empty, or until nothing has moved for `quiet`.
+// settle waits for the queue goroutines. The queues hold (a subset of) the blocks delivered to this server instance;
+// as long as the block the chain (or the state sync module) needs next is among them, wait for it to be applied, but
+// not longer than `quiet` without any movement (a forged block may sit in its slot).
 func (w *c20World) settle(quiet time.Duration) {
+	defer c20Time(fmt.Sprint("settle", quiet))()
 	last := w.progress()
 	since := time.Now()
-	for d := 50 * time.Microsecond; ; {
+	for d := 20 * time.Microsecond; ; {
 		if w.qlen() == 0 {
 			return
 		}
+		next, set := last.bh+1, w.delivered
+		switch last.stage {
+		case "blocks":
+			next, set = last.mh+1, w.deliveredSync
+		case "headers", "state", "none":
+			return // blocks are not taken in these stages
+		}
+		lq, _ := w.srv.bQueue.LastQueued()
+		if last.stage == "blocks" {
+			lq, _ = w.srv.bSyncQueue.LastQueued()
+		}
+		if !set[next] && lq < next { // neither delivered nor claimed by the queue itself
+			return
+		}
 		time.Sleep(d)
-		if d < 2*time.Millisecond {
+		if d < time.Millisecond {
 			d *= 2
 		}
 		if now := w.progress(); now != last {
 			last, since = now, time.Now()
 		} else if time.Since(since) > quiet {
+			if os.Getenv("C20_NET_TIMING") != "" {
+				lq, cl := w.srv.bQueue.LastQueued()
+				fmt.Printf("SETTLE-TIMEOUT quiet=%v stage=%s bh=%d mh=%d next=%d qlen=%d bQueue(lastQ=%d len=%d) srcTop=%d\n", quiet, last.stage, last.bh, last.mh, next, w.qlen(), lq, w.srv.bQueue.Cap()-cl, w.b.N.BC.BlockHeight())
+			}
+			delete(set, next)
 			return
 		}
 	}
@@ -847,6 +978,17 @@ func (w *c20World) event(e c20Event) error {
 			return fmt.Errorf("the syncing server failed to handle a block inv of the honest peer: %v", herr)
 		}
 	case "grow":
+		// While a sync point is being worked on the network may not run away by two intervals: a restarted node
+		// then refuses to continue by documentation ("drop the database manually"); that is not provoked.
+		if st := w.stage(); st == "headers" || st == "state" || st == "blocks" {
+			lim := w.srv.stateSync.GetStateSyncPoint() + 2*uint32(w.c.Chain.StateSyncInterval) - 1
+			if top := w.b.N.BC.BlockHeight(); top+uint32(e.N) > lim {
+				if top >= lim {
+					return nil
+				}
+				e.N = int(lim - top)
+			}
+		}
 		return w.grow(e.N)
 	case "disc":
 		w.stats.discs++
@@ -874,6 +1016,9 @@ func (w *c20World) event(e c20Event) error {
 }
 
 func (w *c20World) checkPanics() error {
+	if m := w.fatal.get(); m != "" {
+		return fmt.Errorf("the server logged a FATAL error (the node would exit): %s", m)
+	}
 	select {
 	case p := <-w.panics:
 		return errors.New(p)
@@ -893,6 +1038,13 @@ func (w *c20World) cleanRounds() error {
 			return fmt.Errorf("the syncing node has not caught up after 5000 clean rounds (height %d of %d, stage %s)", w.n.BC.BlockHeight(), w.b.N.BC.BlockHeight(), w.stage())
 		}
 		before := w.progress()
+		if before.stage == "headers" && before.hh == w.b.N.BC.BlockHeight() && w.srv.stateSync.GetStateSyncPoint() == before.hh {
+			// The source stands exactly at the sync point: header P+1 does not exist yet. The network moves on.
+			w.o.Label("source-exactly-at-sync-point")
+			if _, _, err := w.b.BuildBlock(ck.BlockSpec{TimeD: 1000, Nonce: uint64(round)}); err != nil {
+				return fmt.Errorf("extra block: %v", err)
+			}
+		}
 		// one request per round: a ping (updates the peer's height, then requestBlocksOrHeaders) or a protocol tick
 		if round%2 == 0 {
 			if err := w.ping(true); err != nil {
@@ -920,7 +1072,7 @@ func (w *c20World) cleanRounds() error {
 				return err
 			}
 		}
-		w.settle(1500 * time.Millisecond)
+		w.settle(400 * time.Millisecond)
 		if after := w.progress(); after != before {
 			stall = 0
 			continue
@@ -938,6 +1090,15 @@ func (w *c20World) cleanRounds() error {
 		if stall >= limit {
 			lq, capLeft := w.srv.bQueue.LastQueued()
 			slq, scap := w.srv.bSyncQueue.LastQueued()
+			if os.Getenv("C20_NET_TIMING") != "" {
+				buf := make([]byte, 1<<20)
+				buf = buf[:runtime.Stack(buf, true)]
+				for _, g := range strings.Split(string(buf), "\n\n") {
+					if strings.Contains(g, "bqueue.(*Queue") || strings.Contains(g, "notificationDispatcher") || strings.Contains(g, "relayBlocksLoop") {
+						fmt.Println("STALL-GOROUTINE", g)
+					}
+				}
+			}
 			return fmt.Errorf("stall: %d clean rounds (ping or tick, every request delivered to the source, every answer delivered in order) without progress: block height %d of %d, header height %d, stage %s, module block height %d, bQueue (lastQ %d, %d queued), bSyncQueue (lastQ %d, %d queued); last drop: %s",
 				stall, w.n.BC.BlockHeight(), w.b.N.BC.BlockHeight(), w.n.BC.HeaderHeight(), w.stage(), before.mh, lq, w.srv.bQueue.Cap()-capLeft, slq, w.srv.bSyncQueue.Cap()-scap, w.lastDrop)
 		}
@@ -946,6 +1107,7 @@ func (w *c20World) cleanRounds() error {
 }
 
 func c20CheckCase(c c20Case, o *vt.Obs) error {
+	defer c20Time("total")()
 	if len(c.Blocks) == 0 {
 		return nil
 	}
@@ -1048,7 +1210,7 @@ func c20CheckCase(c c20Case, o *vt.Obs) error {
 		}
 		seen[idx] = true
 		if i > 0 && idx != applied[i-1]+1 {
-			return fmt.Errorf("block %d applied right after block %d", idx, applied[i-1])
+			return fmt.Errorf("block %d applied right after block %d (applications: %v)", idx, applied[i-1], applied[max(0, i-6):min(len(applied), i+3)])
 		}
 	}
 
